@@ -230,3 +230,23 @@ def IN_INSET_TRI(fx, fy, u, v, S, eps):
     """(u, v) lies in S*Tri(f), at least eps away from every edge (in the functionals' units)."""
     L = TRI_FUNCTIONALS(fx, fy, u, v, S)
     return L[0] >= eps and L[1] >= eps and L[2] >= eps
+
+
+# ---------------------------------------------------------------------------------------------
+# loop-level specification helpers (abstract level: RES, FIRSTC, STRIDEF are uninterpreted there)
+
+def GROUPAT(arr, p):
+    """A complete sibling group sits at positions p .. p+n-1 of the list, first child first, at stride distance."""
+    c = arr[p]
+    r = RES(c)
+    st = STRIDEF(r)
+    if r >= 2:
+        return FIRSTC(c) and p + 4 <= len(arr) and arr[p + 1] == c + st and arr[p + 2] == c + 2 * st and arr[p + 3] == c + 3 * st
+    if r == 1:
+        return (FIRSTC(c) and p + 5 <= len(arr) and arr[p + 1] == c + st and arr[p + 2] == c + 2 * st and arr[p + 3] == c + 3 * st
+                and arr[p + 4] == c + 4 * st)
+    if r == 0:
+        return (FIRSTC(c) and p + 12 <= len(arr) and arr[p + 1] == c + st and arr[p + 2] == c + 2 * st and arr[p + 3] == c + 3 * st
+                and arr[p + 4] == c + 4 * st and arr[p + 5] == c + 5 * st and arr[p + 6] == c + 6 * st and arr[p + 7] == c + 7 * st
+                and arr[p + 8] == c + 8 * st and arr[p + 9] == c + 9 * st and arr[p + 10] == c + 10 * st and arr[p + 11] == c + 11 * st)
+    return False
